@@ -75,7 +75,7 @@ class PatternToken(RegexpBaseToken):
     ~ - cancels pattern effect if placed before ? or * (cancels effect only for next symbol, but not for all)
     Would be useful to recognize argument in function e.g =COUNTIFS(A3:B3; "???le") or =COUNTIFS(A4:B7; "a*")
     """
-    regexp = r'\"(.*(?<![~])[?*]+.*)\"'
+    regexp = r'\"([^\"]*(?<![~])[?*]+[^\"]*)\"'
 
 
 # TODO добавить условие для локализации
